@@ -79,6 +79,22 @@ fn request_cases(base: &Req, thorough: bool) -> Vec<Case> {
     let mut b = full.clone();
     b.push(7);
     v.push(mk("trailing-byte", base, b, Some(base)));
+    if thorough {
+        // two departures at once: every invalid (limit, id) pair x every out-of-tree index x every declared length anomaly
+        for (l, i, _) in bad_limit_ids() {
+            for idx in [base.index, 1u64 << 20, u64::MAX] {
+                for (n, lname) in [(base.signal.len() as u64, "len-ok"), (base.signal.len() as u64 + 1, "len-plus-1"), (u64::MAX, "len-max")] {
+                    if idx == base.index && lname == "len-ok" {
+                        continue;
+                    }
+                    let r = Req { limit: l.clone(), id: i.clone(), index: idx, ..base.clone() };
+                    let mut b = r.prove_input();
+                    b[siglen_off..siglen_off + 8].copy_from_slice(&n.to_le_bytes());
+                    v.push(mk("two-departures", &r, b, None));
+                }
+            }
+        }
+    }
     v
 }
 
